@@ -232,9 +232,18 @@ class ExprMixin(object):
             if i == len(e.values) - 1:
                 return v
             t = self.truthy(s, v)
+
+            def cont(s2, positive):
+                saved = dict(s2.vars)
+                self.refine(s2, e.values[i], positive)
+                try:
+                    return rec(s2, i + 1)
+                finally:
+                    s2.vars.clear()
+                    s2.vars.update(saved)
             if is_and:
-                return self.branch(s, t, lambda s2: rec(s2, i + 1), lambda s2: v)
-            return self.branch(s, t, lambda s2: v, lambda s2: rec(s2, i + 1))
+                return self.branch(s, t, lambda s2: cont(s2, True), lambda s2: v)
+            return self.branch(s, t, lambda s2: v, lambda s2: cont(s2, False))
         try:
             return rec(st, 0)
         except EngineError as ex:
@@ -618,7 +627,16 @@ class ExprMixin(object):
 
     def getattr_kind(self, st, base, name, kind, a, classes, line):
         if kind == 'field':
-            return self.load_field(st, base, name, classes)
+            missing = [d for d in classes if not self.class_has_attr(d, name) and d not in (list, tuple, dict, set)]
+            if missing and len(missing) < len(set(classes)) or (missing and all(issubclass(d, tuple(missing)) for d in classes)):
+                subs = []
+                for d in missing:
+                    subs.extend(UNIVERSE.subclasses(d))
+                subs = [d for d in dict.fromkeys(subs) if not self.class_has_attr(d, name)]
+                if subs:
+                    self.raise_exit(st, AttributeError,
+                                    Or(*[cls_of(Val.r(base.t)) == UNIVERSE.cid(d) for d in subs]), line)
+            return self.load_field(st, base, name, [d for d in classes if d not in missing] or classes)
         if kind == 'property':
             if a.fget is None:
                 raise EngineError('write-only property')
